@@ -73,6 +73,8 @@ func runC03(c *Ctx, r *Report) {
 	r.Rule("C03/settings-writers", "the NETCONF driver's settings (self-closing tags, preferred version, ...) are written only by options, constructors and their listed run-time owners", 1)
 	checkSettingsWriters(c, r, "C03/settings-writers", []string{"driver/netconf"})
 	importFoundation(c, r, "C03", "transport-pipe")
+	r.Rule("C03/input-immutable", "a response's record of what was sent is written by its constructor only", 2)
+	checkResponseInputImmutable(c, r, "C03/input-immutable")
 	r.Rule("C03/fresh-operation", "netconf.NewOperation hands every caller a freshly allocated options object: the filter / defaults mode / commit arguments of one request never show up in a later one", 1)
 	checkFreshOperation(c, r, "C03/fresh-operation", []string{"driver/netconf"})
 	importFoundation(c, r, "C03", "client-hello")
